@@ -58,3 +58,27 @@ CHECKS["C07"] = {
         {"bin": "asan/C07", "cases": P(400, 3000), "procs": P(8, 16), "size": 60, "shrink_budget": 200},
     ],
 }
+
+CHECKS["C14"] = {
+    "level": "exploration",
+    "technique": "model-based request sequences over (chunk, data|stored) on generated files; exhaustive enumeration of all sequences of length <= 3 for small files; oracle = chunk table of the generated file (plain slices, file extents, reference digests) checked after every request",
+    "level_text": "Generated valid files with a known chunk table (none/zstd, with/without dictionary, duplicate and 1-byte chunks, library- and reference-written). For a third of the files every request sequence of length <= 3 over all (chunk, kind) pairs is run on a fresh context; the others get random sequences of up to 40 (thorough 60) requests biased to the last chunk, the dictionary and repeats. Every answer is compared with the model, so history dependence shows as a mismatch. Exhaustive per small file, sampled otherwise.",
+    "level_note": "Trusted: the chunk table comes from the generator (plain chunks) and the reference parser (extents, digests). dst_size equals the declared/stored size, as every in-tree caller does.",
+    "rule": "case = (file: compression, dictionary, hash types, chunk sizes, writer) + request sequence. Non-trivial = sequence of length >= 2 containing a request after the last chunk's data was requested or a repeated chunk; exhaustive files: every enumerated sequence on a file with >= 1 data chunk counts (distinct by construction). Distinct by choice-sequence hash.",
+    "assumptions": ["dst_size == declared (data) / stored (stored data) size, as in unzck, zck_gen_zdict and the tests", "no streaming zck_read is mixed into the request history"],
+    "runs": [
+        {"bin": "asan/C14", "cases": P(500, 6000), "procs": P(8, 16), "size": 70, "shrink_budget": 300},
+    ],
+}
+
+CHECKS["C15"] = {
+    "level": "exploration",
+    "technique": "per generated zstd file: exhaustive single-bit flips over every stored byte of a chosen chunk (plus index-digest alteration with re-sealed header), classified by a reference zstd decode; oracle = bytes released by successful zck_read calls are a prefix of the content preceding the bad chunk, an error is reported, nothing of the bad chunk is released later",
+    "level_text": "For each generated zstd file (2..6 chunks, with/without dictionary, bad chunk = dictionary/first/middle/last, read sizes below/at/above the chunk size) every single-bit corruption of the chosen chunk's stored bytes is enumerated; the oracle attributes every released byte to a chunk through the generator's chunk table. Exhaustive per (file, chunk); files and read histories are sampled.",
+    "level_note": "Trusted: generator's chunk table, libzstd for the 'still decodes' classification only (not for the verdict). SHA collisions ignored. A read returning bytes shorter than 4 after the error is not attributed.",
+    "rule": "case = (file, bad chunk, cyclic read sizes) x every bit of the chunk's stored bytes. Non-trivial = the flipped chunk still decodes under zstd AND some read size is smaller than the chunk's uncompressed size (the situation in which unverified data could be handed out piecemeal); distinct = (case, byte, bit) by construction.",
+    "assumptions": ["any bit flip changes the chunk digest (no collisions)"],
+    "runs": [
+        {"bin": "asan/C15", "cases": P(120, 1500), "procs": P(8, 16), "size": 70, "shrink_budget": 60},
+    ],
+}
